@@ -5,6 +5,39 @@ HERE = os.path.dirname(os.path.abspath(__file__))
 
 # id -> (technique, level text, level note, design ref)
 CLAIMED = {
+ "C02": ("rapid stateful property-based testing on a virtual clock (testing/synctest): generated event sequences over every limiter stack, conservation invariants at every quiescent point, zero state at the end; plus generated cooperative schedules",
+         "generated arrival/completion/cancel/sleep/burst sequences over default, blocking, deadline, queue (FIFO/LIFO, eviction), deprecated constructors and pools over all four strategies; after every event at quiescence the strategy busy count, the limiter's in-flight gauge and every partition bin must equal the harness's own count of outstanding tokens, listener!=nil iff ok; at the end zero state, empty backlog and full re-admission",
+         "virtual clock (synctest) and quiescence detection are trusted; schedules are sampled, not exhausted; fixed pool observed as a black box", "4/C02"),
+ "C03": ("rapid model-based (stateful) testing: acquire/release/SetLimit/add/remove sequences against a reference admission model, all counters compared after every operation",
+         "both partitioned strategies driven by generated operation sequences (unknown keys, overlapping predicates, dynamic add/remove, SetLimit with tokens held) and compared after every step with an executable model of the admission rule and the share arithmetic",
+         "sequential histories only (the strategy serialises operations under one lock; concurrent use is covered by C17's race check); float share arithmetic as documented: max(1, ceil(float64(total)*fraction))", "4/C03"),
+ "C04": ("rapid property-based testing: generated valid configurations and hostile sample sequences, bounds invariant and recover() after every sample",
+         "every built-in algorithm (alone, windowed, traced) fed generated sample sequences incl. rtt 0 / 2^62, in-flight 0 / 2^31-1, all-drop windows; after each sample the estimate must be a finite integer within [floor, ceiling] and no panic may occur",
+         "configurations restricted to the validity conditions the property lists", "4/C04"),
+ "C06": ("rapid property-based testing: reachable states via generated prefix histories, single drop and sustained drop runs against exact (AIMD) and bounded (Vegas, Gradient) oracles",
+         "from generated reachable states a drop sample must not raise the estimate (AIMD: exact formula) and a sustained run of drops must reach the floor within a bound computed from the configuration",
+         "bounded liveness: bounds are loose upper bounds derived from the configuration; Vegas baseline-maintenance samples are counted as the algorithm documents them", "4/C06"),
+ "C07": ("rapid property-based testing: app-limited samples must not raise the estimate; saturated healthy runs must recover within configuration-derived bounds",
+         "generated reachable states (prefix histories with drops and zero RTTs), then an app-limited sample (never raises) and a run of saturated drop-free samples at the baseline (AIMD +increment each, Gradient per-sample growth relation, Vegas/Gradient2 reach the ceiling within a bound)",
+         "bounded liveness only; Vegas probe multipliers <=3 excluded from the liveness half (documented domain decision)", "4/C07"),
+ "C08": ("rapid metamorphic/differential testing: twin instances with identical jitter and history, final sample differing only in RTT",
+         "two identically prepared instances (same seed for the library's jitter, same history) receive a final sample that differs only in RTT; the higher RTT must never give the higher estimate",
+         "states with the estimate above the configured maximum excluded (initial <= max)", "4/C08"),
+ "C10": ("generated and exhaustively enumerated cooperative schedules (spawn order + yield counts at schedule points) inside synctest bubbles; quiescence oracle at zero elapsed virtual time",
+         "a full limiter, releasing holders and 1-3 waiters started at one virtual instant; the harness owns the schedule (GOMAXPROCS=1, yields at library hook points and around an injected delegate); at quiescence with no time elapsed free capacity and a blocked waiter must not coexist. A small schedule space is enumerated exhaustively, larger ones sampled",
+         "schedule control is cooperative: interleavings that need a preemption where no schedule point exists are not reached", "4/C10"),
+ "C11": ("rapid model-based testing on a virtual clock: arrivals at distinct instants, releases, time-outs, cancellations against a reference backlog in the documented order",
+         "every constructor of a queue limiter or ordered pool; each operation's set of returning callers is compared with a reference backlog served FIFO or LIFO as the constructor's name/documentation states",
+         "ties between an expiry and an arrival at the same virtual instant are avoided by construction", "4/C11"),
+ "C14": ("rapid property-based testing with recording doubles: per-call event grammar over generated option sets, limiter decisions, results and classifier answers",
+         "unary client/server interceptors and the server-stream wrapper driven with recording limiter/listener/handler/stream doubles; each call's event list must match the grammar (acquire from the right limiter, call, classify, exactly one completion with the classifier's outcome; refusal: nothing but the classifier's status code)",
+         "no network; grpc-go types only as interfaces", "4/C14"),
+ "C15": ("rapid property-based testing: RTT plateaus and steps, baseline invariants after every sample and a staleness bound",
+         "after every sample the baseline is unset or <= the sample and equals an observed RTT; a baseline lower than all later samples must change within the probe bound",
+         "bound uses the largest estimate seen in the interval (Vegas) / twice the probe interval (Gradient)", "4/C15"),
+ "C16": ("rapid stateful property-based testing: listener registration / sample / set sequences, notification completeness and agreement",
+         "listeners registered at arbitrary points on every limit type and wrapper; after every operation each listener must have been called if the estimate changed and its last value must equal EstimatedLimit(); wrappers must report the delegate's estimate and forward samples unchanged",
+         "callbacks only record (they run under the limit's lock)", "4/C16"),
  "C18": ("rapid property-based testing: generated Add/Get/Reset/Update sequences against reference folds and a fresh-twin differential; sample-window fold with permutation metamorphic relation",
          "generated op sequences on every measurement type compared, after every step, with an independent reference fold (minimum, latest, warm-up mean, hull, non-negative variance), with a freshly constructed twin after each Reset, and with the change flag; exploration, not proof",
          "finite positive samples only (the property's domain); float comparisons with relative tolerance 1e-9 for means, exact elsewhere", "4/C18"),
